@@ -81,16 +81,19 @@ Proof.
 Qed.
 
 (* ---- one submission ---- *)
-Theorem add_inv2 f s tip h :
-  Inv2 s tip -> 0 < calc_work (p_bits (s_pl h)) -> s_id h <> 0%N -> by_hash s (s_id h) = None -> memN (s_id h) f = false ->
+Theorem add_inv_gen f s tip h :
+  Inv s tip -> s_id h <> 0%N -> by_hash s (s_id h) = None -> memN (s_id h) f = false ->
   exists s2 x tip', add f s h = (set_st x (create_header s h) :: s2, Stored x) /\
-                    Inv2 (set_st x (create_header s h) :: s2) tip' /\
+                    Inv (set_st x (create_header s h) :: s2) tip' /\
+                    (best s = by_hash s tip -> 0 < calc_work (p_bits (s_pl h)) ->
+                     best (set_st x (create_header s h) :: s2) = by_hash (set_st x (create_header s h) :: s2) tip') /\
                     map dummy s2 = map dummy s.
 Proof.
-  intros [HI Hbest] Hw Hz Hnew Hnf. pose proof HI as (Hwf & (t & Ht & Hto) & Hl).
+  intros HI Hz Hnew Hnf. pose proof HI as (Hwf & (t & Ht & Hto) & Hl).
   pose proof (by_hash_none s (s_id h) Hnew) as Hfresh.
   assert (Hne_tip: s_id h <> tip). { intro E. subst. congruence. }
   rewrite add_is_explicit. unfold add_explicit. rewrite Hnew, Hnf.
+  set (HB := best s = by_hash s tip).
   unfold create_header. rewrite st_match.
   set (hid := s_id h) in *. set (hprev := s_prev h) in *. set (w := calc_work (p_bits (s_pl h))) in *.
   set (p := by_hash s hprev).
@@ -104,9 +107,9 @@ Proof.
   { intros r E. unfold by_hash. cbn. rewrite E. destruct (N.eqb_spec hid tip); [contradiction| reflexivity]. }
   destruct p as [p0|] eqn:Ep; subst p.
   2:{ (* unknown parent: orphan *)
-    cbn [negb st r0]. exists s, Orphan, tip. change (set_st Orphan r0) with r0. split; [reflexivity|]. split; [|reflexivity]. split.
+    cbn [negb st r0]. exists s, Orphan, tip. change (set_st Orphan r0) with r0. split; [reflexivity|]. split; [|split; [|reflexivity]].
     - apply insert_keep; auto. unfold row_ok. cbn [prev r0]. rewrite Ep. cbn. auto.
-    - cbn [best]. cbn [orph r0 st_eqb]. rewrite (Hbh_cons r0 eq_refl). rewrite Hbest, Ht. reflexivity. }
+    - intros Hbest Hw. try unfold HB in Hbest. cbn [best]. cbn [orph r0 st_eqb]. rewrite (Hbh_cons r0 eq_refl). rewrite Hbest, Ht. reflexivity. }
   destruct (by_hash_in _ _ _ Ep) as [Hp0in Hp0id].
   assert (Hok: row_ok s r0).
   { unfold row_ok. cbn [prev r0]. rewrite Ep. cbn [orph height cum work r0]. repeat split.
@@ -116,10 +119,10 @@ Proof.
     - apply (st_O_iff s tip p0 HI Hp0in). exact E. }
   assert (Hreorg: orph p0 = false -> orph r0 = false -> cum t <? cum r0 = true ->
      let s2 := update_state (update_state s (ids (longest_from s (min_height (stale_back s hprev) (height r0)))) Stale) (ids (stale_back s hprev)) Longest in
-     Inv2 (set_st Longest r0 :: s2) hid /\ map dummy s2 = map dummy s).
-  { intros Horph0 Hro Ecmp s2. split; [split|].
+     Inv (set_st Longest r0 :: s2) hid /\ (best s = by_hash s tip -> 0 < w -> best (set_st Longest r0 :: s2) = by_hash (set_st Longest r0 :: s2) hid) /\ map dummy s2 = map dummy s).
+  { intros Horph0 Hro Ecmp s2. split; [|split].
     - exact (reorg_inv s tip p0 r0 HI Ep Horph0 Hfresh Hz Hok Hro).
-    - cbn [best]. unfold s2, update_state. rewrite !(best_map _ _ (same_struct_upd _ _)), Hbest, Ht.
+    - intros Hbest Hw. try unfold HB in Hbest. cbn [best]. unfold s2, update_state. rewrite !(best_map _ _ (same_struct_upd _ _)), Hbest, Ht.
       cbn [option_map orph set_st]. rewrite Hro.
       unfold by_hash. cbn [find id set_st r0]. rewrite N.eqb_refl.
       match goal with |- (if ?c then _ else _) = _ => replace c with true; [reflexivity|] end.
@@ -138,16 +141,16 @@ Proof.
       rewrite (tipB_is_tip s tip HI), Ht.
       destruct (cum t <? cum r0) eqn:Ecmp.
       * eexists _, Longest, hid. split; [reflexivity|]. exact (Hreorg Horph0 Hro eq_refl).
-      * exists s, Stale, tip. split; [reflexivity|]. split; [|reflexivity]. split.
+      * exists s, Stale, tip. split; [reflexivity|]. split; [|split; [|reflexivity]].
         -- apply insert_keep; auto; try reflexivity.
-        -- cbn [best]. cbn [orph set_st cum]. rewrite Hro. rewrite (Hbh_cons (set_st Stale r0) eq_refl), Hbest, Ht.
+        -- intros Hbest Hw. try unfold HB in Hbest. cbn [best]. cbn [orph set_st cum]. rewrite Hro. rewrite (Hbh_cons (set_st Stale r0) eq_refl), Hbest, Ht.
            rewrite Ecmp. reflexivity.
     + (* nothing above the parent: it is the tip, the header extends it *)
       pose proof (parent_is_tip s tip p0 HI Hp0in Est Ehas) as Hpt.
       exists s, Longest, hid. replace (set_st Longest r0) with r0 by reflexivity.
-      split; [reflexivity|]. split; [|reflexivity]. split.
+      split; [reflexivity|]. split; [|split; [|reflexivity]].
       * apply (insert_extend s tip r0 HI Hfresh Hz Hok); [cbn; congruence| reflexivity| exact Hro].
-      * cbn [best]. rewrite Hro. rewrite Hbest, Ht. unfold by_hash at 1. cbn [find id r0]. rewrite N.eqb_refl.
+      * intros Hbest Hw. try unfold HB in Hbest. cbn [best]. rewrite Hro. rewrite Hbest, Ht. unfold by_hash at 1. cbn [find id r0]. rewrite N.eqb_refl.
         assert (Hpt': p0 = t).
         { destruct (by_hash_in _ _ _ Ht) as [Htin Htid].
           apply (nodup_ids_in s (wf_nodup s Hwf)); auto. congruence. }
@@ -161,13 +164,34 @@ Proof.
     destruct (cum t <? cum r0) eqn:Ecmp.
     + eexists _, Longest, hid. split; [reflexivity|]. exact (Hreorg Horph0 Hro eq_refl).
     + exists s, Stale, tip. replace (set_st Stale r0) with r0 by reflexivity.
-      split; [reflexivity|]. split; [|reflexivity]. split.
+      split; [reflexivity|]. split; [|split; [|reflexivity]].
       * apply insert_keep; auto; try reflexivity.
-      * cbn [best]. rewrite Hro. rewrite (Hbh_cons r0 eq_refl), Hbest, Ht.
+      * intros Hbest Hw. try unfold HB in Hbest. cbn [best]. rewrite Hro. rewrite (Hbh_cons r0 eq_refl), Hbest, Ht.
         rewrite Ecmp. reflexivity.
   - (* parent orphan *)
     cbn [negb]. exists s, Orphan, tip. replace (set_st Orphan r0) with r0 by reflexivity.
-    split; [reflexivity|]. split; [|reflexivity]. split.
+    split; [reflexivity|]. split; [|split; [|reflexivity]].
     + apply insert_keep; auto; try reflexivity.
-    + cbn [best]. cbn [orph r0 st_eqb]. rewrite (Hbh_cons r0 eq_refl). rewrite Hbest, Ht. reflexivity.
+    + intros Hbest Hw. try unfold HB in Hbest. cbn [best]. cbn [orph r0 st_eqb]. rewrite (Hbh_cons r0 eq_refl). rewrite Hbest, Ht. reflexivity.
+Qed.
+
+(* the structural invariant is preserved by EVERY submission (no assumption on the work) *)
+Corollary add_inv f s tip h :
+  Inv s tip -> s_id h <> 0%N -> by_hash s (s_id h) = None -> memN (s_id h) f = false ->
+  exists s2 x tip', add f s h = (set_st x (create_header s h) :: s2, Stored x) /\
+                    Inv (set_st x (create_header s h) :: s2) tip' /\ map dummy s2 = map dummy s.
+Proof.
+  intros HI Hz Hnew Hnf. destruct (add_inv_gen f s tip h HI Hz Hnew Hnf) as (s2 & x & tip' & E & HI' & _ & Hd).
+  exists s2, x, tip'. auto.
+Qed.
+
+(* with positive work the tip is also the specification's best header *)
+Corollary add_inv2 f s tip h :
+  Inv2 s tip -> 0 < calc_work (p_bits (s_pl h)) -> s_id h <> 0%N -> by_hash s (s_id h) = None -> memN (s_id h) f = false ->
+  exists s2 x tip', add f s h = (set_st x (create_header s h) :: s2, Stored x) /\
+                    Inv2 (set_st x (create_header s h) :: s2) tip' /\
+                    map dummy s2 = map dummy s.
+Proof.
+  intros [HI Hbest] Hw Hz Hnew Hnf. destruct (add_inv_gen f s tip h HI Hz Hnew Hnf) as (s2 & x & tip' & E & HI' & Hb & Hd).
+  exists s2, x, tip'. split; [exact E|]. split; [split; [exact HI'| exact (Hb Hbest Hw)]| exact Hd].
 Qed.
